@@ -2,7 +2,8 @@
 and to judge instances).
 
 {"name": "D", "base": "schema"|"dataclass"|"deco", "options": {...}, "local": bool,
- "fields": [{"name": attname, "type": TypeSpec, "f": FieldSpec}, ...]}
+ "fields": [{"name": attname, "type": TypeSpec, "f": FieldSpec}, ...],
+ "parent": DeclSpec (optional, one level; same kind of base): the class inherits from it, fields of the same name are redeclared}
 FieldSpec (all optional): required (true/false/"r"/"w"/"a"), default {"v": ValueSpec}, factory "list"|"dict"|"five",
  defer_default, alias str, alias_gen "upper"|"camel", alias_from [str], case_insensitive bool, no_input (true|"r"|"w"|"a"|"fn:falsy"),
  no_output (true|"r"|"w"|"a"|"fn:none"), mode str, readonly, writeonly, dependencies [attname|alias], on_error,
@@ -61,6 +62,10 @@ def validate(d):
             tspec.validate(fd["type"])
             if not isinstance(fd.get("f", {}), dict):
                 raise HarnessError("bad field spec")
+        if d.get("parent") is not None:
+            if not isinstance(d["parent"], dict) or d["parent"].get("parent") is not None:
+                raise HarnessError("bad parent")
+            validate(d["parent"])
     except (KeyError, TypeError):
         raise HarnessError("malformed DeclSpec")
 
@@ -88,13 +93,16 @@ def build_decl(d, registry=None):
     ns["__qualname__"] = (f"make.<locals>.{name}" if d.get("local") else name)
     opts = make_options(d.get("options"))
     base = d["base"]
+    parent = None
+    if d.get("parent") is not None:
+        parent = build_decl(dict(d["parent"], base=base, name=d["parent"].get("name") or name + "Base"), registry)
     if base == "deco":
-        cls = type(name, (), ns)
+        cls = type(name, (parent,) if parent is not None else (), ns)
         cls = utype.dataclass(cls, options=opts, set_class_properties=True, contains=True, eq=True)
     else:
         if opts is not None:
             ns["__options__"] = opts
-        cls = type(name, (utype.Schema if base == "schema" else utype.DataClass,), ns)
+        cls = type(name, (parent if parent is not None else (utype.Schema if base == "schema" else utype.DataClass),), ns)
     if registry is not None:
         registry[name] = cls
     return cls
@@ -108,6 +116,26 @@ def cleanup():
 
 
 # -- names ------------------------------------------------------------------------------------------
+
+def all_fields(d):
+    """the fields the class ends up with: inherited ones that are not redeclared, then its own"""
+    own = {fd["name"] for fd in d["fields"]}
+    inherited = [fd for fd in (d.get("parent") or {}).get("fields", []) if fd["name"] not in own]
+    return inherited + list(d["fields"])
+
+
+def stale_names(d):
+    """input names only the parent's declaration of a redeclared field accepted: unknown keys for the subclass"""
+    mine = {fd["name"]: fd for fd in d["fields"]}
+    taken = {n for fd in all_fields(d) for n in in_names(fd)}
+    out = []
+    for pf in (d.get("parent") or {}).get("fields", []):
+        if pf["name"] in mine:
+            for n in in_names(pf):
+                if n not in taken and n not in out:
+                    out.append(n)
+    return out
+
 
 def out_name(fd):
     f = fd.get("f") or {}
@@ -278,9 +306,10 @@ def field_spec(draw, t, name, others, rich=True, allow_required_modes=True):
 
 @st.composite
 def decl_specs(draw, rich=True, bases=("schema", "schema", "dataclass", "deco"), options=None, max_fields=4,
-               field_types=None, name="D"):
-    n = draw(st.integers(1, max_fields))
-    names = FIELD_NAMES[:n]
+               field_types=None, name="D", names=None, inherit=False):
+    if names is None:
+        n = draw(st.integers(1, max_fields))
+        names = FIELD_NAMES[:n]
     fields = []
     for i, nm in enumerate(names):
         t = draw(field_types or FIELD_TYPES)
@@ -294,6 +323,33 @@ def decl_specs(draw, rich=True, bases=("schema", "schema", "dataclass", "deco"),
     o = draw(options) if options is not None else {}
     if o:
         d["options"] = o
+    if inherit and draw(st.integers(0, 2)) == 0:
+        # a parent of the same kind; the subclass redeclares some of its fields (different aliases, defaults, ...) and adds others
+        pnames = draw(st.lists(st.sampled_from(FIELD_NAMES), min_size=1, max_size=3, unique=True))
+        d["parent"] = draw(decl_specs(rich=rich, bases=(d["base"],), max_fields=max_fields, field_types=field_types,
+                                      name=name + "Base", names=sorted(pnames)))
+        # utype refuses a redeclaration that changes the field's output name: keep alias / alias_gen, vary the rest
+        # (alias_from in particular: names only the parent's declaration accepted must be unknown to the subclass)
+        pf = {fd["name"]: fd.get("f") or {} for fd in d["parent"]["fields"]}
+        for fd in fields:
+            if fd["name"] in pf and draw(st.integers(0, 3)) > 0:
+                f = dict(fd.get("f") or {})
+                if "plain_default" in f and ("alias" in pf[fd["name"]] or "alias_gen" in pf[fd["name"]]):
+                    continue
+                for k in ("alias", "alias_gen"):
+                    f.pop(k, None)
+                    if k in pf[fd["name"]]:
+                        f[k] = pf[fd["name"]][k]
+                if "plain_default" not in pf[fd["name"]] and "plain_default" not in f and draw(st.booleans()):
+                    # the parent's declaration accepts a name the redeclaration does not list
+                    pfd = [x for x in d["parent"]["fields"] if x["name"] is fd["name"] or x["name"] == fd["name"]][0]
+                    pfd["f"] = dict(pfd.get("f") or {}, alias_from=list((pfd.get("f") or {}).get("alias_from") or []) + [fd["name"] + "_old"])
+                    if draw(st.booleans()):
+                        f.pop("alias_from", None)
+                if f:
+                    fd["f"] = f
+                else:
+                    fd.pop("f", None)
     return d
 
 
@@ -315,12 +371,13 @@ def key_candidates(d, options=None):
     """(field name or None, key) pairs an input may use"""
     opts = options if options is not None else d.get("options")
     out = []
-    for fd in d["fields"]:
+    for fd in all_fields(d):
         for nm in in_names(fd):
             out.append((fd["name"], nm))
             for cv in case_variants(nm)[:3]:
                 out.append((fd["name"], cv))
     out += [(None, "extra"), (None, "x1"), (None, "Extra"), (None, "zz")]
+    out += [(None, n) for n in stale_names(d)]
     return out
 
 
@@ -333,14 +390,15 @@ def field_values(fd):
 def inputs_for(d, options=None):
     """strategy: ValueSpec of a dict input for decl d"""
     cands = key_candidates(d, options)
-    by_field = {fd["name"]: fd for fd in d["fields"]}
+    by_field = {fd["name"]: fd for fd in all_fields(d)}
+    stale = stale_names(d)
 
     @st.composite
     def build(draw):
         pairs = []
         used = set()
         # usually one key per field, sometimes none, sometimes two names of the same field
-        for fd in d["fields"]:
+        for fd in all_fields(d):
             mine = [k for (n, k) in cands if n == fd["name"]]
             how = draw(st.sampled_from(["primary", "primary", "any", "any", "skip", "two"]))
             if how == "skip":
@@ -360,6 +418,12 @@ def inputs_for(d, options=None):
             if k not in used:
                 used.add(k)
                 pairs.append([k, draw(st.sampled_from([1, "7", "x", None, {"t": "list", "v": [1]}]))])
+        if stale and draw(st.booleans()):
+            # a name that only the parent's declaration of a redeclared field accepted
+            k = draw(st.sampled_from(stale))
+            if k not in used:
+                used.add(k)
+                pairs.append([k, draw(st.sampled_from([1, "7", "x", {"t": "list", "v": [1]}]))])
         pairs = draw(st.permutations(pairs)) if len(pairs) > 1 and draw(st.booleans()) else pairs
         return {"t": "dict", "v": [list(p) for p in pairs]}
     return build()
